@@ -319,7 +319,7 @@ def w_dec_der(spec, ctx, L, H):
             return
         runs.append(r)
     ctx.op("dec_der", "random")
-    n_min, n_max = (1500, 20000) if ctx.tier == "quick" else (20000, 20000)
+    n_min, n_max = (1500, 20000) if ctx.tier == "quick" else (20000, 150000)
     i = 0
     while i < n_max and (i < n_min or not ctx.expired()):
         for go, variants, tagged in runs:
@@ -411,7 +411,7 @@ def w_dec_unpad(spec, ctx, L, H):
             for bs in (1, 2) if ctx.tier == "quick" else (1, 2, 3):
                 go(style, s, bs, "len<=2")
     ctx.op("dec_unpad", "random")
-    n_min, n_max = (3000, 20000) if ctx.tier == "quick" else (20000, 20000)
+    n_min, n_max = (3000, 20000) if ctx.tier == "quick" else (20000, 150000)
     i = 0
     while i < n_max and (i < n_min or not ctx.expired()):
         for style in RP.STYLES:
@@ -473,7 +473,7 @@ def w_dec_words(spec, ctx, L, H):
     go(RP.key_to_english(b"\xff" * 32), "valid", calibrate=True)
     if not H.calibrated_or_inconclusive([dec]):
         return
-    n_min, n_max = (1500, 20000) if ctx.tier == "quick" else (20000, 20000)
+    n_min, n_max = (1500, 20000) if ctx.tier == "quick" else (20000, 150000)
     for s in M.short_inputs("quick", rng):
         go(s.decode("latin-1"), "len<=2")
     i = 0
@@ -557,7 +557,7 @@ def w_dec_pem(spec, ctx, L, H):
         go(d0, t, "len<=2")
         go(d1, t, "len<=2")
     ctx.op("dec_pem", "random")
-    n_min, n_max = (1500, 20000) if ctx.tier == "quick" else (20000, 20000)
+    n_min, n_max = (1500, 20000) if ctx.tier == "quick" else (20000, 150000)
     i = 0
     while i < n_max and (i < n_min or not ctx.expired()):
         for d in (d0, d1):
@@ -725,7 +725,7 @@ def w_dec_pkcs8(spec, ctx, L, H):
     if gens:
         ctx.count("structural_generators_cut_by_budget", len(gens))
     ctx.op("dec_pkcs8", "random")
-    n_min, n_max = (1200, 20000) if ctx.tier == "quick" else (20000, 20000)
+    n_min, n_max = (1200, 20000) if ctx.tier == "quick" else (20000, 150000)
     i = 0
     while i < n_max and (i < n_min or not ctx.expired()):
         for d in (u0, u1, p1, p2):
@@ -790,5 +790,5 @@ def w_dec_keys(spec, ctx, L, H):
     ctx.op("dec_keys", fam, "structural")
     run.structural(0.8)
     ctx.op("dec_keys", fam, "random")
-    n_min, n_max = (400, 20000) if ctx.tier == "quick" else (20000, 20000)
+    n_min, n_max = (400, 20000) if ctx.tier == "quick" else (20000, 150000)
     run.random(decs, n_min, n_max, text_templates=[D.random_pem, D.random_sshpub])
